@@ -32,6 +32,18 @@ CFG = {'streams': [{'name': 'C20',
                 "first full-match node of an executed (stanza, match) pair and the location of a statement of that stanza at any depth (the "
                 "failing statement or one enclosing it); no non-cancellation error escapes without a statement context "
                 "(lazy_error_ctx_valid, lazy_run_error_ctx_valid; state invariant lazy_ctx_invariant). The innermost context wins. "
+                "LAZY, WHICH statement is cited (all programs, states and fuels): a deferred edge/attr/print that fails when evaluated cites "
+                "exactly its own debug info around a cause without statement context, a duplicate attribute names the earlier attribute "
+                "statement that set the same key first and the failing one second, and when the failure comes out of a thunk or scoped "
+                "definition the deferred statement's context is not added (lazy_deferred_error_cites_own_statement, "
+                "lazy_eval_phase_error_cites_deferred); forcing cites the debug info of the innermost thunk / pending scoped definition whose "
+                "own body failed without statement context, duplicate scoped definitions name the earlier one first, and no enclosing "
+                "with_context changes such an error (lazy_thunk_error_cites_creator, lazy_value_error_cites_creator, lazy_creator_context_wins, "
+                "lazy_thunk_error_not_plain); in the execution phase an error cites the nearest enclosing top-level statement or direct child "
+                "of a scan arm whose own run returned the cause without statement context - for failures in if/for bodies the enclosing "
+                "statement, not the nested one - or the creator of an eagerly forced value (lazy_stmt_error_cites_statement, "
+                "lazy_exec_error_cites_statement); everything a statement stores carries its own error context or that of a statement nested "
+                "in it (lazy_created_values_cite_statement); a whole run from the initial state has exactly these cases (lazy_run_error_cites). "
                 "RENDERING: Model/ErrRender.v models display_pretty and the plain Display of execution/error.rs on the chain the Rust "
                 "code sees (contexts outermost first, Display of the innermost error), for any wording of the phrases; for EVERY "
                 "statement context of the chain the pretty text contains path:row+1:col+1: for the statement, the stanza and the "
@@ -39,10 +51,7 @@ CFG = {'streams': [{'name': 'C20',
                 "rows (render_pretty_shows_lines; otherwise the excerpt is the citation and <missing source>: excerpt_missing_source); "
                 "entries come in chain order numbered 0..n, the innermost error last (render_pretty_entries, render_entry_head). "
                 "Stream C20r walks the real chain of failing runs and compares both texts character by character with the model.",
- 'partial': ['lazy: WHICH statement of the stanza a context cites (the statement that created the failing thunk / deferred statement, or the '
-             "enclosing top-level statement for failures in if/for blocks during execution) is compared by the stream with the model's; the "
-             'theorem says it is a statement of the stanza of an executed (stanza, match) pair, with that pair\'s node',
-             'the KIND and source position recorded for the matched node are compared by the stream only (the model of the execution '
+ 'partial': ['the KIND and source position recorded for the matched node are compared by the stream only (the model of the execution '
              'identifies syntax nodes by index); the RENDERING of a recorded chain is modelled (Model/ErrRender.v, theorems '
              'render_pretty_*) and compared character by character by stream C20r'],
  'assumptions': ['tree-sitter queries are an external: raw matches are recorded by calling QueryCursor::matches directly on the stanza queries and '
